@@ -313,7 +313,7 @@ func init() {
 			{Name: "grid", Quick: 3000, Thorough: 120000, Gen: genC02("grid")},
 			{Name: "curved", Quick: 500, Thorough: 20000, Gen: genC02("curved")},
 			{Name: "selfx", Quick: 1500, Thorough: 60000, Gen: genC02("selfx")},
-			{Name: "selfx-grid", Quick: 1000, Thorough: 40000, Gen: genC02("selfx-grid")},
+			{Name: "selfx-grid", Quick: 1000, Thorough: 40000, Gen: genC02("selfx-grid"), WitnessOnly: true, Note: "self-crossing integer-grid polygons: 3e-5 panics / wrong regions / non-idempotent (F-C02-selfx-grid)"},
 		},
 		NewCase:  func() any { return &c02Case{} },
 		Corpus:   c02Corpus,
